@@ -66,6 +66,8 @@ func main() {
 		// Crowd: many senders released together on a small buffer, some with dead contexts, while the
 		// receiver is idle and then closes: every Send must return.
 		r.Cases("crowd", r.Scale(1500, 30000), 1, func(c *vkit.Case) { crowd(c) })
+		r.Cases("parked-next", r.Scale(200, 3000), 1, func(c *vkit.Case) { parkedNext(c) })
+		r.Floor("parked-next rounds", r.Table("parked-next", "rounds"), 150)
 		r.Floor("crowd rounds", r.Table("crowd", "rounds"), 1000)
 		r.Floor("histories in which a value sent before Close was received after Close was called", r.Table("schedule", "value acked before Close, received after Close call"), 20)
 		r.Floor("histories with a blocked Send released by receiver Close", r.Table("results", "Send closed-pipe"), 20)
@@ -500,6 +502,23 @@ func sweep(c *vkit.Case) {
 		}
 		sender, recv := stream.Pipe[int64](buffer)
 		v := int64(t + 1)
+		// some items are already buffered when the racing Send+Close starts, so that the receiver is
+		// in the middle of taking an item (not parked on an empty pipe) when they land
+		pre := c.Index / 6 % 3
+		if pre >= buffer {
+			pre = buffer - 1
+		}
+		want := make([]int64, 0, 3)
+		for i := 0; i < pre; i++ {
+			pv := -int64(i + 1)
+			if err := sender.Send(context.Background(), pv); err != nil {
+				c.Violation("sweep-send", "phase sweep: Send into an empty buffered pipe returned an error", nil)
+				return
+			}
+			want = append(want, pv)
+		}
+		want = append(want, v)
+		nGot := 0
 		slot.Store(&trial{sender: sender, v: v, err: cerr})
 		for i := (t*7 + c.Index*31) % 389; i > 0; i-- {
 			sink += i
@@ -515,11 +534,12 @@ func sweep(c *vkit.Case) {
 			switch {
 			case err == nil:
 				seq = append(seq, fmt.Sprintf("item(%d)", item))
-				if item != v || got {
-					c.Violation("sweep-wrong-item", fmt.Sprintf("phase sweep (buffer %d): Next returned item %d, the only value sent was %d (results so far %v)", buffer, item, v, seq), nil)
+				if nGot >= len(want) || item != want[nGot] {
+					c.Violation("sweep-wrong-item", fmt.Sprintf("phase sweep (buffer %d): Next returned item %d, the values sent were %v in this order (results so far %v)", buffer, item, want, seq), nil)
 					return
 				}
-				got = true
+				nGot++
+				got = nGot == len(want)
 				continue
 			case ctx == cancelled && errors.Is(err, context.Canceled):
 				seq = append(seq, "ctx")
@@ -529,8 +549,8 @@ func sweep(c *vkit.Case) {
 				if !got {
 					for ack.Load() != int64(t+1) && ack.Load() >= 0 {
 					}
-					c.Violation("sweep-lost", fmt.Sprintf("phase sweep (buffer %d, close error %v): the receiver was told %v before it received value %d, although Send had returned nil before Close was called (results %v)",
-						buffer, cerr, err, v, seq), map[string]any{"trial": t, "ctx_mode": ctxMode})
+					c.Violation("sweep-lost", fmt.Sprintf("phase sweep (buffer %d, close error %v): the receiver was told %v before it received value %d (%d value(s) were already buffered when that Send started), although Send had returned nil before Close was called (results %v)",
+						buffer, cerr, err, v, pre, seq), map[string]any{"trial": t, "ctx_mode": ctxMode})
 					return
 				}
 			default:
@@ -651,4 +671,64 @@ func crowd(c *vkit.Case) {
 	r.Eval(1)
 	r.Count("crowd", "rounds", 1)
 	r.Count("crowd", fmt.Sprintf("buffer %d", buffer), 1)
+}
+
+// parkedNext: a Next is parked on an empty pipe; then (in some modes) ANOTHER goroutine closes the
+// receiver; then the sender is closed. "After sender.Close(e) a blocked Next returns" holds in every
+// mode; what it returns is judged only when nobody closed the receiver under it.
+func parkedNext(c *vkit.Case) {
+	r := c.R
+	rnd := c.Rand
+	buffer := []int{0, 1, 8}[rnd.Intn(3)]
+	mode := c.Index % 4
+	sender, recv := stream.Pipe[int64](buffer)
+	var err error
+	nextDone := make(chan struct{})
+	go func() {
+		defer close(nextDone)
+		_, err = recv.Next(context.Background())
+	}()
+	// wait for the Next to be parked in its select
+	parked := false
+	for t0 := time.Now(); time.Since(t0) < 30*time.Second && !parked; {
+		for _, g := range vkit.Goroutines() {
+			if g.In("main.parkedNext") && g.Has("pipeStream") && g.State == "select" {
+				parked = true
+			}
+		}
+		if !parked {
+			time.Sleep(50 * time.Microsecond)
+		}
+	}
+	if !parked {
+		r.Inconclusive("parked-next: the Next call was not seen parked")
+		sender.Close(nil)
+		return
+	}
+	var cerr error
+	if mode >= 2 {
+		cerr = errCloseSentinel
+	}
+	if mode%2 == 1 {
+		rc := make(chan struct{})
+		go func() { recv.Close(); close(rc) }()
+		<-rc
+	}
+	sender.Close(cerr)
+	v, dump := vkit.Await(nextDone, vkit.AwaitOpts{Soft: 2 * time.Second, Gap: 200 * time.Millisecond, Hard: 60 * time.Second})
+	r.Eval(1)
+	r.Count("parked-next", "rounds", 1)
+	what := fmt.Sprintf("parked-next (buffer %d): a Next was parked on the empty pipe; receiver closed by another goroutine first: %v; then sender.Close(%v)", buffer, mode%2 == 1, cerr)
+	switch v {
+	case vkit.AwaitStuck:
+		c.Violation("next-stuck-after-sender-close", what+": the parked Next never returned", map[string]any{"goroutines": dump})
+	case vkit.AwaitInconclusive:
+		r.Inconclusive("parked-next: Next neither returned nor provably parked")
+	default:
+		if mode%2 == 0 {
+			if (cerr == nil && err != stream.End) || (cerr != nil && err != cerr) {
+				c.Violation("wrong-end", fmt.Sprintf("%s: Next returned %v", what, err), nil)
+			}
+		}
+	}
 }
